@@ -70,7 +70,7 @@ def unicode_doc(max_lines, maxlen):
 def strategy(tier):
     ml, mx = (8, 60) if tier == "quick" else (30, 200)
     doc = unicode_doc(ml, mx)
-    p = G.Profile(doc=doc, p_doc_mostly=True, max_items=6 if tier == "quick" else 8, depth=3, dangling=False,
+    p = G.Profile(doc=doc, p_doc_mostly=True, max_items=6 if tier == "quick" else 8, depth=3, dangling=False, dups=True,
                   body_max=3, moddoc_indent=st.one_of(st.just(""), st.just(""), st.text(alphabet=" \t", max_size=12)))
     return st.fixed_dictionaries({"module": G.module(p), "layout": G.layout_choices(24)})
 
